@@ -5,7 +5,7 @@
 
 use crate::{error::panic_divide_by_0, rbig::RBig, repr::Repr};
 use core::{cmp::Ordering, mem};
-use dashu_base::{AbsOrd, Approximation, DivRem, UnsignedAbs};
+use dashu_base::{AbsOrd, Approximation, DivRem, FloatEncoding, UnsignedAbs};
 use dashu_int::{IBig, Sign, UBig};
 
 impl Repr {
@@ -73,32 +73,49 @@ impl Repr {
 
 /// Implementation of simplest_from_f32, simplest_from_f64
 macro_rules! impl_simplest_from_float {
-    ($f:ident) => {{
+    ($f:ident, $t:ty) => {{
         if $f.is_infinite() || $f.is_nan() {
             return None;
         } else if $f == 0. {
             return Some(Self::ZERO);
         }
 
-        // get the range (f - ulp/2, f + ulp/2)
-        // if f is negative, then range will be flipped by simplest_in()
-        let mut est = Repr::try_from($f).unwrap();
-        est.numerator <<= 1;
-        est.denominator <<= 1;
-        let left = Self(
-            Repr {
-                numerator: &est.numerator + IBig::ONE,
-                denominator: est.denominator.clone(),
+        // The rounding interval of f = man * 2^exp (round to nearest, ties to even) is
+        // [f - ulp/2, f + ulp/2] with ulp = 2^exp, except that towards zero only ulp/4 is
+        // rounded to f when f is a power of two and the binade below it has a finer spacing.
+        // Both bounds are computed in units of ulp/4 = 2^(exp - 2); the order of the bounds
+        // does not matter because simplest_in() swaps them if necessary.
+        let (man, exp) = $f.decode().unwrap();
+        let exp = exp as isize;
+        let man_bits = <$t>::MANTISSA_DIGITS as isize - 1;
+        // exponent of the subnormals and of the lowest normal binade
+        let min_exp = <$t>::MIN_EXP as isize - 1 - man_bits;
+        let is_pow2 = man.unsigned_abs() == 1 << man_bits;
+        let towards_zero = if is_pow2 && exp > min_exp { 1 } else { 2 };
+        let center = IBig::from(man) << 2;
+        let (outer, inner) = if man > 0 {
+            (&center + IBig::from(2), center - IBig::from(towards_zero))
+        } else {
+            (&center - IBig::from(2), center + IBig::from(towards_zero))
+        };
+        let scale = |n: IBig| -> Self {
+            if exp >= 2 {
+                Self(Repr {
+                    numerator: n << (exp - 2) as usize,
+                    denominator: UBig::ONE,
+                })
+            } else {
+                Self(
+                    Repr {
+                        numerator: n,
+                        denominator: UBig::ONE << (2 - exp) as usize,
+                    }
+                    .reduce(),
+                )
             }
-            .reduce(),
-        );
-        let right = Self(
-            Repr {
-                numerator: est.numerator - IBig::ONE,
-                denominator: est.denominator,
-            }
-            .reduce(),
-        );
+        };
+        let left = scale(outer);
+        let right = scale(inner);
 
         // find the simplest float in the range
         let mut simplest = Self::simplest_in(left.clone(), right.clone());
@@ -158,7 +175,7 @@ impl RBig {
     /// );
     /// ```
     pub fn simplest_from_f32(f: f32) -> Option<Self> {
-        impl_simplest_from_float!(f)
+        impl_simplest_from_float!(f, f32)
     }
 
     /// Find the simplest rational number in the rounding interval of the [f64] number.
@@ -189,7 +206,7 @@ impl RBig {
     ///     RBig::from_parts(22.into(), 7u8.into())
     /// );
     pub fn simplest_from_f64(f: f64) -> Option<Self> {
-        impl_simplest_from_float!(f)
+        impl_simplest_from_float!(f, f64)
     }
 
     /// Find the simplest rational number in the open interval `(lower, upper)`.
